@@ -71,16 +71,16 @@ Section ConcProofs.
   Proof.
     intros Ht Hc I NT. unfold RcInv in *. specialize (I NT).
     destruct t as [regs prog cont out]. cbn [t_cont t_regs t_prog t_out] in *. subst cont.
-    destruct m as [p i first keep|p i cand keep|delta after|h|r|r report|tb p i|p o]; cbn [exec_mop].
+    destruct m as [p i rt first keep|p i off cand keep|delta after|h|r|r report|tb p i|p o]; cbn [exec_mop].
     - (* MRead *)
       destruct (slot_lookup (c_slots s) (i :: p)) as [e|]; [|destruct (child_is_node g p i)];
         cbn [fst upd_thread c_torn c_rc c_threads t_regs t_prog t_out]; intros _;
-        (eapply rc_step; [exact Ht|exact I|]); cbn [t_cont t_regs]; rewrite (owned_regs regs prog _ out prog (MRead p i first keep :: rest) out);
+        (eapply rc_step; [exact Ht|exact I|]); cbn [t_cont t_regs]; rewrite (owned_regs regs prog _ out prog (MRead p i rt first keep :: rest) out);
         try destruct keep; cbn [debt]; lia.
     - (* MWrite *)
       destruct (slot_lookup (c_slots s) (i :: p)) as [e|];
         cbn [fst upd_thread c_torn c_rc c_threads t_regs t_prog t_out]; intros _;
-        (eapply rc_step; [exact Ht|exact I|]); cbn [t_cont t_regs]; rewrite (owned_regs regs prog _ out prog (MWrite p i cand keep :: rest) out);
+        (eapply rc_step; [exact Ht|exact I|]); cbn [t_cont t_regs]; rewrite (owned_regs regs prog _ out prog (MWrite p i off cand keep :: rest) out);
         rewrite ?debt_app; try destruct cand; cbn [debt]; lia.
     - (* MRmwInternal *)
       cbn [fst upd_thread c_torn c_rc c_threads t_regs t_prog t_out]. intros _.
@@ -205,34 +205,34 @@ Section ConcProofs.
     destruct t as [regs prog cont out]. cbn [t_cont t_regs t_prog t_out] in *. subst cont.
     assert (Hown : owned (mkThread regs prog (m :: rest) out) >= 1) by (apply Hbusy; discriminate).
     assert (Hnr := NN_tail _ _ Hnn). assert (Hdr := DropAlone_rest _ _ Hda).
-    destruct m as [p i first keep|p i cand keep|delta after|h|r|r report|tb p i|p o]; cbn [exec_mop].
+    destruct m as [p i rt first keep|p i off cand keep|delta after|h|r|r report|tb p i|p o]; cbn [exec_mop].
     - (* MRead *)
       destruct (slot_lookup (c_slots s) (i :: p)) as [e|]; [|destruct (child_is_node g p i)];
         cbn [fst upd_thread c_torn c_threads t_regs t_prog t_out]; intros _; apply Forall_set_nth; auto; apply TOk_intro.
       + destruct keep; [apply (NN_plain_app [MCloneResult (i :: p, e)]); auto|auto].
       + destruct keep; [apply (DropAlone_push _ _ [MCloneResult (i :: p, e)] Hda); intros x [<-|[]]; reflexivity|auto].
-      + intros _. rewrite (owned_regs regs prog _ out prog (MRead p i first keep :: rest) out). exact Hown.
-      + apply (NN_plain_app [MWrite p i (Some (c_next s)) keep]); auto.
-      + apply (DropAlone_push _ _ [MWrite p i (Some (c_next s)) keep] Hda); intros x [<-|[]]; reflexivity.
-      + intros _. rewrite (owned_regs regs prog _ out prog (MRead p i first keep :: rest) out). exact Hown.
-      + apply (NN_plain_app [MWrite p i None keep]); auto.
-      + apply (DropAlone_push _ _ [MWrite p i None keep] Hda); intros x [<-|[]]; reflexivity.
-      + intros _. rewrite (owned_regs regs prog _ out prog (MRead p i first keep :: rest) out). exact Hown.
+      + intros _. rewrite (owned_regs regs prog _ out prog (MRead p i rt first keep :: rest) out). exact Hown.
+      + apply (NN_plain_app [MWrite p i (cand_off g (c_offs s) p i rt) (Some (c_next s)) keep]); auto.
+      + apply (DropAlone_push _ _ [MWrite p i (cand_off g (c_offs s) p i rt) (Some (c_next s)) keep] Hda); intros x [<-|[]]; reflexivity.
+      + intros _. rewrite (owned_regs regs prog _ out prog (MRead p i rt first keep :: rest) out). exact Hown.
+      + apply (NN_plain_app [MWrite p i (cand_off g (c_offs s) p i rt) None keep]); auto.
+      + apply (DropAlone_push _ _ [MWrite p i (cand_off g (c_offs s) p i rt) None keep] Hda); intros x [<-|[]]; reflexivity.
+      + intros _. rewrite (owned_regs regs prog _ out prog (MRead p i rt first keep :: rest) out). exact Hown.
     - (* MWrite *)
       destruct (slot_lookup (c_slots s) (i :: p)) as [e|];
         cbn [fst upd_thread c_torn c_threads t_regs t_prog t_out]; intros _; apply Forall_set_nth; auto; apply TOk_intro.
-      + assert (Hr : NN (MRead p i false keep :: rest)) by (apply (NN_plain_app [MRead p i false keep]); auto).
+      + assert (Hr : NN (MRead p i RIter false keep :: rest)) by (apply (NN_plain_app [MRead p i RIter false keep]); auto).
         assert (Hd := NN_debt _ Hr). cbn [debt] in Hd.
         destruct cand; cbn [app NN debt]; repeat split; auto; try lia; apply Hr.
       + destruct cand as [c|]; cbn [app].
-        * apply (DropAlone_push _ _ [MRmwInternal 2 []; MRmwInternal (-1) [CFree c]; MRmwInternal (-1) [CWriteUnlock (block_of (c_slots s) p) i]; MRead p i false keep] Hda).
+        * apply (DropAlone_push _ _ [MRmwInternal 2 []; MRmwInternal (-1) [CFree c]; MRmwInternal (-1) [CWriteUnlock (block_of (c_slots s) p) i]; MRead p i RIter false keep] Hda).
           intros x Hin. cbn [In] in Hin. repeat (destruct Hin as [<-|Hin]; [reflexivity|]). destruct Hin.
-        * apply (DropAlone_push _ _ [MRmwInternal 1 []; MRmwInternal (-1) [CWriteUnlock (block_of (c_slots s) p) i]; MRead p i false keep] Hda).
+        * apply (DropAlone_push _ _ [MRmwInternal 1 []; MRmwInternal (-1) [CWriteUnlock (block_of (c_slots s) p) i]; MRead p i RIter false keep] Hda).
           intros x Hin. cbn [In] in Hin. repeat (destruct Hin as [<-|Hin]; [reflexivity|]). destruct Hin.
-      + intros _. rewrite (owned_regs regs prog _ out prog (MWrite p i cand keep :: rest) out). exact Hown.
-      + apply (NN_plain_app [MRead p i false keep]); auto.
-      + apply (DropAlone_push _ _ [MRead p i false keep] Hda); intros x [<-|[]]; reflexivity.
-      + intros _. rewrite (owned_regs regs prog _ out prog (MWrite p i cand keep :: rest) out). exact Hown.
+      + intros _. rewrite (owned_regs regs prog _ out prog (MWrite p i off cand keep :: rest) out). exact Hown.
+      + apply (NN_plain_app [MRead p i RIter false keep]); auto.
+      + apply (DropAlone_push _ _ [MRead p i RIter false keep] Hda); intros x [<-|[]]; reflexivity.
+      + intros _. rewrite (owned_regs regs prog _ out prog (MWrite p i off cand keep :: rest) out). exact Hown.
     - (* MRmwInternal *)
       cbn [fst upd_thread c_torn c_threads t_regs t_prog t_out]. intros _. apply Forall_set_nth; auto. apply TOk_intro; auto.
       all: try (intros _; rewrite (owned_regs regs prog _ out prog (MRmwInternal delta after :: rest) out); exact Hown).
@@ -266,7 +266,7 @@ Section ConcProofs.
   (* ---------------------------------------------------------------------------------------- *)
   (* taking the next program operation *)
   Definition fresh_op (m : mop) : bool :=
-    match m with MRead _ _ _ _ | MCloneReg _ | MData _ _ => true | _ => false end.
+    match m with MRead _ _ _ _ _ | MCloneReg _ | MData _ _ => true | _ => false end.
   Lemma fresh_plain ms : forallb fresh_op ms = true -> forallb plain ms = true.
   Proof.
     rewrite !forallb_forall. intros F x Hin. specialize (F x Hin). destruct x; cbn in *; congruence.
@@ -278,7 +278,7 @@ Section ConcProofs.
   Lemma plain_iter_to p : forall n j, forallb fresh_op (iter_to p j n) = true.
   Proof. induction n as [|n IH]; intros j; cbn [iter_to get_or_add app forallb fresh_op]; [reflexivity|apply IH]. Qed.
 
-  Lemma plain_flat p l : forallb fresh_op (flat_map (fun j => get_or_add p j false) l) = true.
+  Lemma plain_flat p l : forallb fresh_op (flat_map (fun j => get_or_add p j RIter false) l) = true.
   Proof. induction l as [|a l IH]; cbn [flat_map get_or_add app forallb fresh_op]; auto. Qed.
 
   Lemma OkExp_nil t : OkExp t [].
@@ -384,7 +384,7 @@ Section ConcProofs.
   Lemma exec_torn_stays s tid t m rest : c_torn s = true -> c_torn (fst (exec_mop g s tid t m rest)) = true.
   Proof.
     intros NT. destruct t as [regs prog cont out].
-    destruct m as [p i first keep|p i cand keep|delta after|h|r|r report|tb p i|p o]; cbn [exec_mop].
+    destruct m as [p i rt first keep|p i off cand keep|delta after|h|r|r report|tb p i|p o]; cbn [exec_mop].
     + destruct (slot_lookup (c_slots s) (i :: p)); [|destruct (child_is_node g p i)]; cbn [fst upd_thread c_torn]; congruence.
     + destruct (slot_lookup (c_slots s) (i :: p)); cbn [fst upd_thread c_torn]; congruence.
     + cbn [fst upd_thread c_torn]; congruence.
@@ -445,7 +445,7 @@ Section ConcProofs.
     exists r b, m = MDropReg r b /\ c_rc s = 1 /\ reg_of t r <> None.
   Proof.
     intros NT. destruct t as [regs prog cont out].
-    destruct m as [p i first keep|p i cand keep|delta after|h|r|r report|tb p i|p o]; cbn [exec_mop].
+    destruct m as [p i rt first keep|p i off cand keep|delta after|h|r|r report|tb p i|p o]; cbn [exec_mop].
     - destruct (slot_lookup (c_slots s) (i :: p)); [|destruct (child_is_node g p i)]; cbn [fst upd_thread c_torn]; congruence.
     - destruct (slot_lookup (c_slots s) (i :: p)); cbn [fst upd_thread c_torn]; congruence.
     - cbn [fst upd_thread c_torn]; congruence.
